@@ -21,6 +21,14 @@ Two parts, reported separately in the evidence.
     unchanged.  In the default mode: mutating the constructor arguments afterwards does not change
     the automaton, every nested container is frozenset / frozendict / tuple, setattr / delattr /
     nested writes raise, copy() and pickle give the same class with identical input_parameters.
+
+Round 3 (same level as (B): observation on the real objects):
+(C) `results_family` / `judge_result` / `factory_case`: the immutability, hashability and copy / pickle clauses
+    evaluated on every automaton an OPERATION returns (default configuration; operands built under either
+    setting of the option — the option is SWITCHED between construction and the calls), plus "later mutation
+    of the objects passed to the constructor" evaluated on copies / results made in the default configuration.
+(D) `lookalike_family`: mutable option + transition tables / sets in dict / set subclasses (defaultdict,
+    OrderedDict, __missing__), reads of missing rows / symbols, definition compared with the one as built.
 """
 from __future__ import annotations
 
@@ -46,7 +54,17 @@ RULE = ("(A) cases = Python values for freeze_value (all values of nesting depth
         "new/copy/pickle; (B) cases = (history step: operation, operands) on a pool of tracked instances of the 8 "
         "classes under allow_mutable_automata=True, and (class, definition) for the default-mode immutability probes. "
         "Non-trivial: the value contains a mutable container below the top level / the definition has ≥2 states and "
-        "≥1 transition; distinct = distinct encoded values / (class, definition, operation) tuples")
+        "≥1 transition; distinct = distinct encoded values / (class, definition, operation) tuples. Round 3: (C) RESULTS "
+        "of operations as immutable values — every automaton returned by every operation / conversion / copy of every "
+        "class and by the 15 automaton-valued class methods, called in the default configuration on operands built in "
+        "the default configuration AND on operands built while the option was on and switched off before the call: "
+        "stored containers in immutable form (atoms, tuple, frozenset, frozendict only — dict views and other "
+        "look-alikes are not) and hashable, copy() / pickle / copy.copy / copy.deepcopy give the same class with an "
+        "identical definition, and mutating the objects once passed to the operands' constructors changes no result; "
+        "copies made under m1=False in (A) are judged the same way; (D) under the option, definitions handed over in "
+        "dict / set SUBCLASSES (defaultdict outer+rows / outer only, OrderedDict, dict subclasses whose __missing__ "
+        "inserts / answers a default, a set subclass): every operation, query and run — words with symbols missing "
+        "from rows, states without rows, a symbol outside the alphabet — must leave the definition as built")
 ASSUMPTIONS = [
     "part (B) is MONITORED at level 'other': absence of operand mutation and of harmful aliasing is observed on sampled histories, not proved",
     "freeze_value theorems assume `supported`: every dict key and every set/frozenset element is hashable (on the model: contains no dict/set/list). This excludes nothing that exists: Python raises TypeError (unhashable type) when such a dict/set/frozenset is built. Lists inside tuples ARE covered (fix 3900daf)",
@@ -54,6 +72,8 @@ ASSUMPTIONS = [
     "objects other than str/int/dict/set/list/tuple/frozenset/frozendict are atoms assumed immutable (None, float, …)",
     "pickle's byte encoding is CPython's and trusted; the model covers __getstate__/__setstate__",
     "show_diagram (DFA / NFA / GNFA / DPDA / NPDA) cannot be exercised here: pygraphviz / coloraide are not installed, the method raises ImportError before touching the automaton; that it leaves its operand unchanged is therefore NOT observed by the histories",
+    "atoms of a definition (state names, symbols) are str / int / float / None / bytes / tuples / frozensets of these, as "
+    "the generators produce them: 'immutable form' of a stored value is judged by type (atoms, tuple, frozenset, frozendict)",
     "an exception inside a history that is not a documented refusal (AutomatonException subclasses; NotImplementedError of GNFA readers; ValueError of DFA.random_word) is reported as a failure",
 ]
 EXPLANATION = ("Theorems C18_* prove for the model: freeze (tuples entered, fix 3900daf) leaves no mutable container in any value "
